@@ -58,6 +58,17 @@ func (fr *frame) beforeAsserts(cc *ssa.CallCommon, st *bstate, site ssa.Instruct
 		return
 	}
 	names := calleeNames(cc)
+	if !cc.IsInvoke() && cc.StaticCallee() == nil {
+		for _, b := range fr.fn.Blocks {
+			for _, in := range b.Instrs {
+				if d, ok := in.(*ssa.DebugRef); ok && d.X == cc.Value {
+					if n := debugRefName(d); n != "" {
+						names = append(names, n)
+					}
+				}
+			}
+		}
+	}
 	for _, ba := range fr.spec.Before {
 		match := false
 		for _, n := range names {
@@ -216,8 +227,20 @@ func (fr *frame) applyCall(cc *ssa.CallCommon, st *bstate, site ssa.Instruction,
 	default:
 		// unknown callee: fresh result, heap havoc
 		f.abstr["call-unknown:"+shortCallee(name)]++
+		preH := st.heap
 		st.heap = f.hs.havocAll(st.heap)
+		st.heap.byCall = true
 		st.heap.keepPrivate = !fr.calleeIsWriter(name)
+		if st.heap.keepPrivate {
+			fr.keepOwnedChannels(preH, st)
+		}
+		if callee == nil || !(callee.Pkg != nil && inModule(callee.Pkg.Pkg) || callee.Parent() != nil) {
+			fr.keepFreeVarCells(preH, st, args)
+		}
+		if callee == nil || !(callee.Pkg != nil && inModule(callee.Pkg.Pkg) || callee.Parent() != nil) || !f.e.mayClose(callee) {
+			// code outside the module, callbacks, and module functions that never reach a close() leave channels as they are
+			st.heap.keep = map[string]bool{"G.chan.closed": true}
+		}
 		if rt != nil {
 			result = f.freshVal("res."+shortCallee(name), rt)
 			f.assumeTypeRange(st, result)
@@ -364,7 +387,11 @@ func (fr *frame) applySpec(spec *FuncSpec, name string, pnames []string, args []
 	case spec.Pure:
 	case spec.ModAll || !spec.HasMod:
 		st.heap = f.hs.havocAll(st.heap)
+		st.heap.byCall = true
 		st.heap.keepPrivate = !fr.calleeIsWriter(name)
+		if st.heap.keepPrivate {
+			fr.keepOwnedChannels(pre, st)
+		}
 	default:
 		for _, m := range spec.Modifies {
 			nh, err := env.havocLocation(st.heap, m)
@@ -376,10 +403,22 @@ func (fr *frame) applySpec(spec *FuncSpec, name string, pnames []string, args []
 			st.heap = nh
 		}
 	}
+	for _, gname := range spec.Counted {
+		g, ok := f.e.specs.ghosts[gname]
+		if !ok || len(g.Params) != 0 {
+			f.fail("%s: counted %s: no such scalar ghost", spec.Line, gname)
+			continue
+		}
+		key := f.ghostKey(g.Name, sortInt, false, "")
+		st.heap = f.hs.write(st.heap, key, f.c.define("cnt."+gname, sortInt, app("+", f.hs.read(pre, key), "1")))
+	}
 	// result
 	var result Val
 	if rt != nil {
 		if spec.Func && allScalar(args) {
+			if spec.IsCallSpec {
+				sn = "cs." + spec.Key
+			}
 			result = f.pureApp(sn, args, rt)
 		} else {
 			result = f.freshVal("res."+sn, rt)
@@ -504,6 +543,9 @@ func (fr *frame) inline(fn *ssa.Function, args, fvs []Val, st *bstate, rt types.
 	nf := f.newFrame(fn, args, fvs, false, fr.depth+1)
 	nf.oldHeap = st.heap
 	entry := &bstate{reach: st.reach, heap: st.heap, seg: f.newSeg(st.seg)}
+	if fn.Parent() == nil {
+		nf.boundaryInvariants(entry, fr)
+	}
 	ret := nf.run(entry)
 	f.inlineInLoop = wasLoop
 	f.inlineDepth--
@@ -595,12 +637,12 @@ func (fr *frame) builtin(b *ssa.Builtin, cc *ssa.CallCommon, args []Val, st *bst
 		return Val{K: KUnit}
 	case "close":
 		ch := args[0]
-		closed := f.ghostAt(st.heap, "chan.closed", sortBool, ch.Tm)
-		if f.sweep["close"] {
+		closed := f.ghostAt(st.heap, chanClosedGhost(cc.Args[0].Type()), sortBool, ch.Tm)
+		if f.sweep["close"] && !fr.recovers() {
 			f.oblige(st, fmt.Sprintf("%s#close-once:%s", fnShortName(fr.fn), valueLabel(cc.Args[0])), "safety", f.sweepTags,
 				and(not(closed), not(eq(ch.Tm, "0"))), "close of a channel that is not already closed (and not nil)", pos)
 		}
-		st.heap = f.setGhostAt(st.heap, "chan.closed", sortBool, ch.Tm, "true")
+		st.heap = f.setGhostAt(st.heap, chanClosedGhost(cc.Args[0].Type()), sortBool, ch.Tm, "true")
 		f.exact["close"]++
 		return Val{K: KUnit}
 	case "copy":
@@ -919,7 +961,53 @@ func (fr *frame) checkGuardedValue(v ssa.Value, st *bstate, write bool, pos toke
 // ---------------------------------------------------------------------------
 // static notes for C08-style obligations (filled in by later stages)
 
-func (fr *frame) noteGo(x *ssa.Go, st *bstate)         {}
+func (fr *frame) noteGo(x *ssa.Go, st *bstate) {
+	f := fr.f
+	var callee *ssa.Function
+	switch v := x.Call.Value.(type) {
+	case *ssa.Function:
+		callee = v
+	case *ssa.MakeClosure:
+		callee, _ = v.Fn.(*ssa.Function)
+	}
+	if callee == nil {
+		return
+	}
+	spec := f.e.specFor(callee)
+	if spec == nil || len(spec.Requires) == 0 {
+		return
+	}
+	vars := map[string]Val{}
+	for i, p := range callee.Params {
+		if i < len(x.Call.Args) {
+			vars[p.Name()] = fr.val(x.Call.Args[i])
+		}
+	}
+	if mc, ok := x.Call.Value.(*ssa.MakeClosure); ok {
+		for i, fv := range callee.FreeVars {
+			if i < len(mc.Bindings) {
+				b := fr.val(mc.Bindings[i])
+				if pt, ok := fv.Type().Underlying().(*types.Pointer); ok {
+					vars[fv.Name()] = f.load(st.heap, b, pt.Elem())
+				} else {
+					vars[fv.Name()] = b
+				}
+			}
+		}
+	}
+	env := f.newEnv(spec.Pkg, st.heap, st.heap, vars, nil)
+	for _, r := range spec.Requires {
+		if !f.e.active(r.Tags) {
+			continue
+		}
+		v, err := env.evalBool(r.E)
+		if err != nil {
+			f.fail("%s: requires of spawned %s: %v", r.Line, shortCallee(callee.String()), err)
+			continue
+		}
+		f.oblige(st, fmt.Sprintf("%s#go:%s:requires:%s", fnShortName(fr.fn), shortCallee(callee.String()), clauseLabel(r)), "call-requires", r.Tags, v, r.Src, r.Line)
+	}
+}
 func (fr *frame) noteSelect(x *ssa.Select, st *bstate) {}
 func (fr *frame) noteRecv(x *ssa.UnOp, st *bstate)     {}
 
@@ -993,7 +1081,12 @@ func (fr *frame) checkTypeInvariants(st *bstate) {
 				continue
 			}
 			env := f.newEnv(ts.Pkg, st.heap, fr.oldHeap, map[string]Val{"self": fr.vals[p]}, nil)
+			// callees are assumed to preserve the invariants of the objects they are handed
+			// (each function that writes the fields is itself checked): unknown calls are
+			// transparent for this one evaluation
+			f.hs.ignoreCallHavoc = true
 			v, err := env.evalBool(inv.E)
+			f.hs.ignoreCallHavoc = false
 			if err != nil {
 				f.fail("%s: invariant: %v", inv.Line, err)
 				continue
@@ -1100,7 +1193,7 @@ func (fr *frame) checkCtorInvariants(ret *retState) {
 // other heap location as it found it.
 func (fr *frame) checkFrame(st *bstate) {
 	f := fr.f
-	if f.dry || fr.spec == nil || !fr.spec.HasMod || fr.spec.ModAll {
+	if f.dry || fr.spec == nil || !fr.spec.HasMod || fr.spec.ModAll || fr.spec.Trusted {
 		return
 	}
 	lf := &loopFrame{keys: map[string]map[string]bool{}}
@@ -1233,4 +1326,127 @@ func (fr *frame) atomicCall(cc *ssa.CallCommon, args []Val, st *bstate) (Val, bo
 	}
 	f.exact["atomic."+fn.Name()]--
 	return Val{}, false
+}
+
+// checkLockBalance: a function returns holding exactly the locks it was entered with
+// (this is what lets callers keep their lock state across calls).
+func (fr *frame) checkLockBalance(st *bstate) {
+	f := fr.f
+	if f.dry {
+		return
+	}
+	lk := f.ghostKey("lockheld", sortInt, true, sortInt)
+	before, after := f.hs.read(f.entryHeap, lk), f.hs.read(st.heap, lk)
+	if before == after {
+		return
+	}
+	f.oblige(st, fnShortName(fr.fn)+"#lock-balance", "lock-balance", []string{"C06", "C09", "C12", "C20"}, eq(after, before),
+		"every lock acquired by the function is released on every return path", posStr(f.e.fset, fr.fn.Pos()))
+}
+
+// keepOwnedChannels: channels stored in fields a type declares as owned keep
+// their open/closed state across calls to code that is not one of the type's
+// private writers (for the objects this function received as parameters).
+func (fr *frame) keepOwnedChannels(pre *Heap, st *bstate) {
+	f := fr.f
+	for _, p := range fr.fn.Params {
+		ts := f.e.typeSpecOf(p.Type())
+		if ts == nil || len(ts.Owns) == 0 {
+			continue
+		}
+		pt, ok := p.Type().Underlying().(*types.Pointer)
+		if !ok {
+			continue
+		}
+		base := fr.vals[p]
+		for _, fname := range ts.Owns {
+			i, ok := fieldIndex(pt.Elem(), fname)
+			if !ok {
+				continue
+			}
+			key := f.fieldKey(base.Tm, pt.Elem(), i)
+			ch := app("select", f.hs.read(pre, key), base.Tm)
+			gname := chanClosedGhost(pt.Elem().Underlying().(*types.Struct).Field(i).Type())
+			f.assume(st, eq(f.ghostAt(st.heap, gname, sortBool, ch), f.ghostAt(pre, gname, sortBool, ch)), "owned channel "+ts.Name+"."+fname+" is closed only by the type's writers")
+		}
+	}
+}
+
+// boundaryInvariants: at a call boundary the type invariants of the callee's
+// parameters hold: the caller's own writes must not have broken them
+// (obligation, unknown calls transparent), and the callee may rely on them.
+func (nf *frame) boundaryInvariants(st *bstate, caller *frame) {
+	f := nf.f
+	if nf.spec != nil && nf.spec.Helper {
+		return
+	}
+	for _, p := range nf.fn.Params {
+		ts := f.e.typeSpecOf(p.Type())
+		if ts == nil || len(ts.Invs) == 0 {
+			continue
+		}
+		if _, isPtr := p.Type().Underlying().(*types.Pointer); !isPtr {
+			continue
+		}
+		for _, inv := range ts.Invs {
+			if !f.e.active(inv.Tags) {
+				continue
+			}
+			env := f.newEnv(ts.Pkg, st.heap, st.heap, map[string]Val{"self": nf.vals[p]}, nil)
+			f.hs.ignoreCallHavoc = true
+			v0, err := env.evalBool(inv.E)
+			f.hs.ignoreCallHavoc = false
+			if err != nil {
+				f.fail("%s: invariant: %v", inv.Line, err)
+				continue
+			}
+			// relative to the caller's entry: what held when the caller was entered still holds
+			// as far as the caller's own writes are concerned
+			envE := f.newEnv(ts.Pkg, f.entryHeap, f.entryHeap, map[string]Val{"self": nf.vals[p]}, nil)
+			if ve, err := envE.evalBool(inv.E); err == nil {
+				v0 = implies(ve, v0)
+			}
+			if caller.spec == nil || !caller.spec.Helper {
+				f.oblige(st, fmt.Sprintf("%s#call:%s:type-invariant:%s:%s", fnShortName(caller.fn), shortCallee(nf.fn.String()), ts.Name, clauseLabel(inv)), "type-invariant", inv.Tags, v0, inv.Src, inv.Line)
+			}
+			v, err := env.evalBool(inv.E)
+			if err == nil {
+				f.assume(st, v, "type invariant of "+ts.Name+" at the call boundary: "+inv.Src)
+			}
+			f.hs.ignoreCallHavoc = true
+			if v2, err := env.evalBool(inv.E); err == nil && v2 != v {
+				f.assume(st, v2, "type invariant of "+ts.Name+" at the call boundary (own writes only): "+inv.Src)
+			}
+			f.hs.ignoreCallHavoc = false
+		}
+	}
+}
+
+// keepFreeVarCells: the cells of variables captured by this closure cannot be
+// reached by code outside the module or by callbacks unless their address is
+// passed: they keep their contents across such calls.
+func (fr *frame) keepFreeVarCells(pre *Heap, st *bstate, args []Val) {
+	f := fr.f
+	top := fr
+	for _, fv := range top.fn.FreeVars {
+		pt, ok := fv.Type().Underlying().(*types.Pointer)
+		if !ok || !isScalarKind(kindOf(pt.Elem())) {
+			continue
+		}
+		cell, ok := top.vals[fv]
+		if !ok || cell.K != KRef {
+			continue
+		}
+		passed := false
+		for _, a := range args {
+			if a.Tm == cell.Tm {
+				passed = true
+			}
+		}
+		if passed {
+			continue
+		}
+		key := f.cellKey(cell.Tm, pt.Elem())
+		f.assume(st, eq(app("select", f.hs.read(st.heap, key), cell.Tm), app("select", f.hs.read(pre, key), cell.Tm)), "captured variable "+fv.Name()+" is not reachable by the callee")
+	}
 }
